@@ -136,9 +136,11 @@ def run_native(prop, rec, tests):
             failed = ("panicked at" in out or re.search(r"test result: FAILED", out) or "overflowed its stack" in out
                       or "SIGABRT" in out or "SIGSEGV" in out)
             hit = [t for t in tags if t.startswith("VP:") and t in out]
+            # a repo panic named by the solver (PANIC:<message>) counts when the native run panics with that message
+            hit += [t for t in tags if t.startswith("PANIC:") and len(t) > 12 and t[6:46].split(" @")[0].strip() in out]
             rec["native"].append({"profile": profile, "test": name, "rc": p.returncode,
                                   "panicked": bool(failed), "tags_seen": hit, "tail": out[-1500:]})
-            if failed and (hit or not any(t.startswith("VP:") for t in tags)):
+            if failed and (hit or not any(t.startswith(("VP:", "PANIC:")) for t in tags)):
                 all_ok = True
                 details.append("%s/%s: reproduced" % (profile, name))
             elif not ran:
